@@ -301,6 +301,9 @@ func (dec *xmlReader) BigInteger(tag int) (*big.Int, error) {
 	if err != nil {
 		return nil, err
 	}
+	if len(bytes) == 0 {
+		return nil, Errorf("invalid big integer value %q", dec.value())
+	}
 	return bytesToBigInt(bytes), dec.Next()
 }
 
